@@ -47,6 +47,14 @@ def zero_imperfection(*a):
     return None
 
 
+def imperfection(ctx, name):
+    """cfw0x / cfw0t of an arbitrary initial imperfection: its slope at the integration point is a free symbol"""
+    def f(xs, ts, npts, c0, L, m0, n0, out, funcnum):
+        for q in range(int(npts)):
+            out[q] = ctx.V(name)
+    return f
+
+
 def sym_dict(M, size):
     d = {}
     for r, c, v in zip(M.row, M.col, M.data):
@@ -57,16 +65,14 @@ def sym_dict(M, size):
     return d
 
 
-def build(cfg, values=None):
-    model = cfg['model']
-    m1, m2, n2 = cfg['mn']
-    ctx = ConeCtx(values=values, seed=cfg.get('seed', 0))
-    V = ctx.V
+def load_nl(ctx, model, cfg):
+    """the non-linear module of `model` de-Cythonised, with the one-point integrator and the helper kernels cimported from the
+    commons module of the same boundary-condition family"""
+    import re
     rel, nF = NL[model]
     env = dict(ctx.kernels.extra_env)
-    env.update({'integratev': one_point_integrator(ctx), 'trapz_wp': None, 'cfw0x': zero_imperfection, 'cfw0t': zero_imperfection, 'coo_matrix': ShimCOO})
-    # helper kernels cimported from the commons module of the same boundary-condition family
-    import re
+    w0x, w0t = (imperfection(ctx, 'w0x'), imperfection(ctx, 'w0t')) if cfg.get('imperfect') else (zero_imperfection, zero_imperfection)
+    env.update({'integratev': one_point_integrator(ctx), 'trapz_wp': None, 'cfw0x': w0x, 'cfw0t': w0t, 'coo_matrix': ShimCOO})
     src = open(os.path.join(REPO, rel)).read()
     for mm in re.finditer(r'^from\s+([\w\.]+)\s+cimport\s+(.+)$', src, re.M):
         modname, names = mm.group(1), [x.strip() for x in mm.group(2).split(',')]
@@ -75,11 +81,20 @@ def build(cfg, values=None):
             continue
         crel = os.path.join(os.path.dirname(rel), base + '.pyx')
         cenv = dict(ctx.kernels.extra_env)
-        cenv.update({'cfw0x': zero_imperfection, 'cfw0t': zero_imperfection})
+        cenv.update({'cfw0x': w0x, 'cfw0t': w0t})
         C = cysym.Module(os.path.join(REPO, crel), env=cenv)
         for nm in names:
             env[nm] = C.ns[nm]
-    M = cysym.Module(os.path.join(REPO, rel), env=env)
+    return cysym.Module(os.path.join(REPO, rel), env=env)
+
+
+def build(cfg, values=None):
+    model = cfg['model']
+    m1, m2, n2 = cfg['mn']
+    ctx = ConeCtx(values=values, seed=cfg.get('seed', 0))
+    V = ctx.V
+    rel, nF = NL[model]
+    M = load_nl(ctx, model, cfg)
     K = M.ns
     size = 3 + 3 * m1 + (6 if nF == 6 else 10) * m2 * n2 if nF == 6 else None
     # size as the module computes it
@@ -107,10 +122,57 @@ def build(cfg, values=None):
     def fint(cv):
         return np.asarray(K['calc_fint_0L_L0_LL'](cv, *args), dtype=object)
     obs = []
-    if cfg['variant'] == 'zero':
+    if cfg['variant'] == 'api':
+        # the real ConeCyl._calc_NL_matrices / calc_fint (conecyl.py) over the de-Cythonised non-linear module: the partitioned
+        # tangent kTuu against the derivative of calc_fint with respect to the FREE amplitudes, k0 an arbitrary symmetric matrix
+        import compmech.conecyl.modelDB as mdb
+        from ..eigstubs import sym_matrix
+        ns = type('NonLinearModule', (), {})()
+        for nm in ('calc_k0L', 'calc_kLL', 'calc_kG', 'calc_fint_0L_L0_LL'):
+            setattr(ns, nm, K[nm])
+        newdb = {name: dict(e) for name, e in mdb.db.items()}
+        newdb[model]['non-linear'] = ns
+        with ctx.shadow(extra_stubs={'compmech.conecyl.modelDB.db': newdb, 'compmech.conecyl.conecyl.get_model': lambda name: newdb[name]}):
+            cc = ctx.new_cone(model, m1, m2, n2)
+            cc.r2, cc.L = r2, L
+            cc.alphadeg = V('alphadeg') if cone else 0.
+            cc.tLAdeg = V('tLAdeg')
+            cc.pdC, cc.pdT, cc.pdLA = cfg['pd']
+            cc.uTM, cc.thetaTdeg, cc.betadeg = V('uTM'), V('thetaTdeg'), V('betadeg')
+            cc.F = F
+            cc.ni_num_cores, cc.ni_method, cc.nx, cc.nt = 1, 'trapz2d', 1, 1
+            cc.c0, cc.m0, cc.n0 = c0, 0, 0
+            cc._rebuild()
+            cc.k0 = ShimCSR(sym_matrix('k0', size, list(range(size)), V, symmetric=True))
+            ex = sorted(cc.excluded_dofs)
+            keep = [i for i in range(size) if i not in ex]
+            inc = V('inc')
+            cu = np.array([V('cu%d' % a) for a in range(len(keep))], dtype=object)
+            cc._calc_NL_matrices(cu.copy(), inc=inc, silent=True)
+            kTuu = cc.kTuu.todict()
+            for j in range(len(keep)):
+                fs = {}
+                for t_ in (-2, -1, 1, 2):
+                    cv = cu.copy()
+                    cv[j] = cv[j] + t_
+                    fs[t_] = np.asarray(cc.calc_fint(cv, inc=inc, return_u=True, silent=True), dtype=object)
+                for k in range(len(keep)):
+                    obs.append(('kTuu-is-jacobian-of-calc_fint[%d,%d]' % (k, j), 12 * Sym.lift(kTuu.get((k, j), 0)), -fs[2][k] + 8 * fs[1][k] - 8 * fs[-1][k] + fs[-2][k]))
+            f0 = np.asarray(cc.calc_fint(np.array([0] * len(keep), dtype=object), inc=0, return_u=True, silent=True), dtype=object)
+            for k in range(len(keep)):
+                obs.append(('calc_fint-of-undeformed-shell[%d]' % k, f0[k], 0))
+    elif cfg['variant'] == 'zero':
         f0 = fint(np.zeros(size, dtype=object) * 0 + np.array([0] * size, dtype=object))
         for k in range(size):
             obs.append(('fint-of-undeformed-perfect-shell[%d]' % k, f0[k], 0))
+        # the state-dependent parts of the tangent vanish with the amplitudes: kT(0) = k0, fint(c) = k0 c + O(c^2)
+        from compmech.sparse import make_symmetric
+        from ..shadow import Shadow, GenericPolicy
+        z = np.array([0] * size, dtype=object)
+        with Shadow(None, policy=GenericPolicy()):
+            for nm, fn in (('k0L', 'calc_k0L'), ('kLL', 'calc_kLL'), ('kG', 'calc_kG')):
+                for (r, cc), v in sorted(ShimCSR(K[fn](z, *args)).todict().items()):
+                    obs.append(('%s-at-zero-amplitudes[%d,%d]' % (nm, r, cc), v, 0))
     else:
         from compmech.sparse import make_symmetric
         from ..shadow import Shadow, GenericPolicy
@@ -222,9 +284,15 @@ def configs(tier, seed):
     models = ['clpt_donnell_bc1', 'clpt_donnell_bc3', 'clpt_sanders_bc1', 'fsdt_donnell_bc1'] if quick else sorted(NL)
     for model in models:
         for cone in (True, False):
-            out.append({'variant': 'jacobian', 'model': model, 'mn': (2, 2, 1), 'cone': cone, 'group': 'tangent=jacobian:%s:%s' % (model, 'cone' if cone else 'cylinder'), 'm': 1, 'n': 1,
+            out.append({'variant': 'jacobian', 'model': model, 'mn': (2, 2, 1), 'cone': cone, 'group': 'tangent=jacobian:%s:%s' % (model, 'cone' if cone else 'cylinder'), 'm': 2, 'n': 1,
                         'timeout_ms': 600000})
-        out.append({'variant': 'zero', 'model': model, 'mn': (1, 1, 1), 'cone': True, 'group': 'fint(0)=0:%s' % model, 'm': 1, 'n': 1})
+        out.append({'variant': 'zero', 'model': model, 'mn': (2, 2, 1), 'cone': True, 'group': 'fint(0)=0,kT(0)=k0:%s' % model, 'm': 2, 'n': 1})
+        out.append({'variant': 'jacobian', 'model': model, 'mn': (2, 2, 1), 'cone': True, 'imperfect': True, 'group': 'tangent=jacobian:%s:cone-imperfect' % model, 'm': 2, 'n': 1,
+                    'timeout_ms': 600000})
+        if 'clpt_donnell' in model:
+            for pd in ((True, True, True), (False, False, True)) if quick else ((True, True, True), (False, False, True), (True, False, True), (False, True, True)):
+                out.append({'variant': 'api', 'model': model, 'mn': (2, 2, 1), 'cone': True, 'pd': pd, 'group': 'ConeCyl.kTuu=d calc_fint/dcu:%s:pd=%s' % (model, ''.join('1' if x else '0' for x in pd)),
+                            'm': 2, 'n': 1, 'timeout_ms': 600000})
         if not quick:
             out.append({'variant': 'jacobian', 'model': model, 'mn': (3, 2, 2), 'cone': True, 'group': 'tangent=jacobian:%s:cone-322' % model, 'm': 3, 'n': 1, 'timeout_ms': 1200000})
     out[0]['canary'] = True
